@@ -239,10 +239,13 @@ PROPS["C08"] = dict(
            "point) and a proof fn <method>_const_step shows that next(v) from a constant state returns the constant output and stays in that state; "
            "one inductive step, verified over the contracts (exact for selections and indices, equality over reals for arithmetic outputs). "
            "Prefix invariance follows because k leading copies leave the same abstract state as new."),
-    assumptions=[REALS, "indicator-level constancy (an indicator initialised with a candle and fed that candle) is PROVED for fourteen indicators - MACD, Envelopes, KeltnerChannel, DetrendedPriceOscillator, MomentumIndex, "
-                 "TrueStrengthIndex, SMIErgodicIndicator, KnowSureThing, DonchianChannel, ChandeMomentumOscillator, KlingerVolumeOscillator, EaseOfMovement, EldersForceIndex, RelativeStrengthIndex: `init` is verified to establish a const_state predicate and a proof fn <indicator>_const_step shows that one step on the same "
+    assumptions=[REALS, "indicator-level constancy (an indicator initialised with a candle and fed that candle) is PROVED for twenty-four of the 36 indicators - MACD, Envelopes, KeltnerChannel, DetrendedPriceOscillator, MomentumIndex, "
+                 "TrueStrengthIndex, SMIErgodicIndicator, KnowSureThing, DonchianChannel, PriceChannelStrategy, BollingerBands, ChandeMomentumOscillator, KlingerVolumeOscillator, EaseOfMovement, EldersForceIndex, "
+                 "RelativeStrengthIndex, CommodityChannelIndex, WoodiesCCI, ChaikinMoneyFlow (positive volume), StochasticOscillator, IchimokuCloud, AverageDirectionalIndex (ordered candle; lemma only, init not linked), "
+                 "Kaufman, FisherTransform (values; non-zero price): `init` is verified to establish a const_state predicate and a proof fn <indicator>_const_step shows that one step on the same "
                  "candle returns the constant outputs (no signal) and stays in that state; for the generic ones this holds for averaging kinds that cannot overshoot (11 of the crate's 15 kinds, unit ma_instance). "
-                 "For the other indicators two concrete bounded Kani harnesses (Trix, RelativeVigorIndex on one candle) stand in; the RVI one is a listed known finding. A native sweep of all 36 default "
+                 "Not proved: Aroon, AwesomeOscillator, ChandeKrollStop, CoppockCurve, HullMovingAverage, MoneyFlowIndex, PivotReversalStrategy, Trix, TrendStrengthIndex (NaN on a flat window), "
+                 "and the exempt ChaikinOscillator / ParabolicSAR; two concrete bounded Kani harnesses (Trix, RelativeVigorIndex on one candle) stand in; the RVI one is a listed known finding. A native sweep of all 36 default "
                  "configurations on one repeated candle (not evidence) showed only the exempt ones (ChaikinOscillator with the cumulative ADI, ParabolicSAR's first step) and RVI changing",
                  "methods without a *_const_step lemma in coverage.samples/functions are not covered"],
 )
